@@ -1046,6 +1046,10 @@ def pad_edge(array, pad_width, mode, **kwargs):
 
     result = array
     for d in range(array.ndim):
+        if pad_width[d][0] == 0 and pad_width[d][1] == 0:
+            # nothing to add along this axis (an empty array chunked into
+            # several empty blocks has no single-chunk edge to broadcast)
+            continue
         pad_shapes, pad_chunks = get_pad_shapes_chunks(
             result, pad_width, (d,), mode=mode
         )
